@@ -144,11 +144,12 @@ Proof. exact world_backchannel_key. Qed.
 Print Assumptions C09_backchannel_key.
 
 (* Recorded under the state of the request only: after an accepted back-channel response the record of st is
-   the old record updated with the response, and no other record of any client has changed. *)
+   the old record updated with the response (minus a member called nonce that differs from the nonce the session's
+   request was sent with: Current.update never replaces that), and no other record of any client has changed. *)
 Theorem C09_backchannel_recorded : forall lhash w o st w' stored,
   backchannel_of o = Some st -> step lhash w o = (w', Ok stored) ->
   exists i rec, op_target w o = Some i /\ rec_of w i st = Some rec /\
-    rec_of w' i st = Some (dict_update rec stored) /\
+    rec_of w' i st = Some (dict_update rec (keep_nonce rec stored)) /\
     (forall j s, j <> i \/ s <> st -> rec_of w' j s = rec_of w j s).
 Proof. exact world_backchannel_recorded. Qed.
 Print Assumptions C09_backchannel_recorded.
